@@ -80,6 +80,8 @@ type StoreCase struct {
 	// listens to, "onchange" no BeforeChange (badger store only: the change
 	// callbacks are then not checked, the results of the calls are)
 	Listeners string `json:"listeners,omitempty"`
+	// VetoLast: of the two BeforeChange listeners the second one vetoes
+	VetoLast bool `json:"veto_last,omitempty"`
 }
 
 type typedRec struct {
@@ -106,6 +108,7 @@ func (StoreLinScenario) GenCase(r *rand.Rand, prop string) interface{} {
 		c.Typed = chance(r, 50)
 		c.Prefix = pick(r, "", "pre", "a.b")
 		c.Listeners = pick(r, "", "", "", "none", "onchange")
+		c.VetoLast = chance(r, 50)
 	}
 	for _, p := range storePoints {
 		if chance(r, 60) {
@@ -287,12 +290,21 @@ func (StoreLinScenario) Execute(sim *sched.Sim, ci interface{}, prop string, rac
 			bs.SetType(typedRec{})
 		}
 		if c.Listeners == "" {
-			bs.BeforeChange(func(id string, before, after interface{}) error {
+			// two listeners, one of which may veto: a veto of either stands
+			accept := func(id string, before, after interface{}) error { return nil }
+			veto := func(id string, before, after interface{}) error {
 				if t := sim.Current(); t != nil && sr.veto[t.Name] {
 					return errors.New("vetoed by BeforeChange")
 				}
 				return nil
-			})
+			}
+			if c.VetoLast {
+				bs.BeforeChange(accept)
+				bs.BeforeChange(veto)
+			} else {
+				bs.BeforeChange(veto)
+				bs.BeforeChange(accept)
+			}
 		}
 		st = bs
 		badgerstore.VerifHook = sim.Yield
